@@ -913,6 +913,39 @@ func checkEth(t *rapid.T, hashBits, payloadBits int) {
 		m.ExtraData = hex0x(v.b)
 		e.mustReject("payloadlen", "eth_payload_"+v.name, m, "the payload carried is not exactly the signed RLP transaction ("+v.name+")")
 	}
+	// other JSON texts for the declared Data that still contain the signed members: members added (also in
+	// another letter case, which the executor's decoder would prefer), members reordered, white space around -
+	// the declared data is not exactly what the signed payload determines
+	{
+		d := base.Data
+		if strings.HasPrefix(d, "{") && strings.HasSuffix(d, "}") && len(d) > 2 {
+			inner := d[1 : len(d)-1]
+			parts := strings.Split(inner, ",\"")
+			reordered := inner
+			if len(parts) >= 2 {
+				reordered = "\"" + parts[len(parts)-1] + "," + parts[0]
+				for _, p := range parts[1 : len(parts)-1] {
+					reordered += ",\"" + p
+				}
+			}
+			for _, v := range []struct{ name, data string }{
+				{"member_added", "{" + inner + `,"memo":"x"}`},
+				{"member_added_other_case", "{" + inner + `,"TransferValue":"1000","AbiData":"0xffffffff"}`},
+				{"member_duplicated", "{" + inner + `,"transferValue":"1000"}`},
+				{"members_reordered", "{" + reordered + "}"},
+				{"leading_blank", " " + d},
+				{"trailing_newline", d + "\n"},
+				{"inner_blank", "{ " + inner + "}"},
+			} {
+				if v.data == d {
+					continue
+				}
+				m = clone(base)
+				m.Data = v.data
+				e.mustReject("datajson", "eth_data_json_"+v.name, m, "declared Data is another JSON text ("+v.name+") than the one the signed payload determines")
+			}
+		}
+	}
 	// payload replaced by another honestly signed payload of the same key (nonce changed)
 	f2 := f
 	f2.nonce = mutU64(t, f.nonce, "mNonce2")
